@@ -103,8 +103,30 @@ def run(ctx):
         elif pi['kind'] in ('PANIC', 'HANG', 'ABORT', 'missing'):
             ctx.fail('oracle', c, impl=impl.get(c[1]), expect='a result', note=f'{pi["kind"]} while running {src!r}')
         stats[k] = stats.get(k, 0) + 1
+    # fixed arity of every instruction on every operand type pair: the operand-stack / input-value-stack / frame deltas of
+    # one executed instruction (the complete OP matrix, both stores, three host modes) must equal those of the value-level
+    # model, whose arity is what step_arity and absDepth_sound are proved about
+    if not ctx.replay and drv_ok:
+        import opsuite
+        from gen import opgen
+        ocases = opgen.gen_cases()
+        if ctx.tier == 'quick':
+            ocases = ocases[::2]
+        orows = opsuite.run(ocases, 'c06op', True)
+        nar = 0
+        for c, ri, rm, skip in orows:
+            pi_, pm_ = opsuite.parse_result(ri), opsuite.parse_result(rm)
+            if skip or pi_['kind'] != 'ok' or pm_['kind'] != 'ok':
+                continue
+            nar += 1
+            a = (pi_['regs'], pi_['vals'], pi_['frames'])
+            b = (pm_['regs'], pm_['vals'], pm_['frames'])
+            if a != b:
+                ctx.fail('oracle', c, impl=ri, model=rm, expect=f'regs={b[0]} vals={b[1]} frames={b[2]}', note=f'the {c[3]} instruction on {c[2]} changes the stacks by regs={a[0]} vals={a[1]} frames={a[2]}; its arity is regs={b[0]} vals={b[1]} frames={b[2]}')
+        stats['OP arity comparisons'] = nar
+        ctx.evaluations += len(ocases)
     ctx.rule = ('RUN/PROG cases: generated core-language programs (small-exhaustive + random, no bare `;;`) on both stores with a per-step monitor in the harness: operand count relative to the frame base recorded per instruction address (conflict = two paths reach it with different depths), never negative, exactly 1 when EndExpression executes; '
-                'on completion registers, input-value stack and frame chain back at their initial depths; the verified abstract interpretation absDepth is run on every built instruction stream (all paths) and every observed (address, depth) pair must equal its result; reapply loops with iteration counts 0..N; distinct = distinct (source, store).')
+                'on completion registers, input-value stack and frame chain back at their initial depths; the verified abstract interpretation absDepth is run on every built instruction stream (all paths) and every observed (address, depth) pair must equal its result; reapply loops with iteration counts 0..N; the stack deltas of every single instruction on every operand type pair (OP matrix) against the model`s arity; distinct = distinct (source, store).')
     ctx.suites = {'RUN': len(cases), 'outcomes': stats}
     if progs:
         ctx.distribution = progsuite.feature_distribution(progs)
